@@ -3,8 +3,9 @@ from harness import ll_common as ll
 
 PROPERTY = "C03"
 STATEFUL = True
-READY = False
-THEOREMS = []
+READY = True
+THEOREMS = ["C03.recCheck_iff", "C03.accepted_no_cycle", "C03.stack_bound", "C03.stack_bound_parse",
+            "C03.run_terminates", "C03.parse_terminates", "C03.parse_total"]
 RULE = ("one case = one generated grammar (unbiased / mostly non-left-recursive / shaped / LL(1)-ish / hidden-recursion "
         "generators, names permuted), constructed with smart_factorization True and False, each followed by every token "
         "string up to the tier's length plus sampled sentences; the real constructor and parse run under a line-event "
@@ -12,7 +13,8 @@ RULE = ("one case = one generated grammar (unbiased / mostly non-left-recursive 
         "left-recursive; distinct by protocol text")
 TRUSTED = ["re (lexemes are found by the harness with the tokenizer's own pattern)",
            "sys.settrace line counter as the observable for non-termination (budget 400000 line events per call)"]
-ASSUMPTIONS = []
+ASSUMPTIONS = ["the equivalence 'cycle in the factorised dictionary <=> the user's grammar is left-recursive' is not a theorem; "
+               "it is covered by the oracle (reference test on the user's productions) on every generated grammar"]
 BUDGET = 400000
 
 
@@ -67,6 +69,15 @@ shrink = ll.shrink
 tags = ll.tags
 observable = ll.observable
 
-LEVEL_TEXT = "under construction"
-LEVEL_NOTE = ""
-TECHNIQUE = "Lean 4 theorems + correspondence check"
+LEVEL_TEXT = ("Kernel-checked on the executable model, for ALL grammars and inputs: the recursion check answers "
+              "GrammarIsRecursive iff some symbol of the (factorised) dictionary reaches itself behind nullables, for every "
+              "visiting order / assignment of names, and never anything else (C03.recCheck_iff); every accepted grammar "
+              "terminates on every token list, returns a tree or raises ParsingError, never IndexError (C03.parse_terminates, "
+              "C03.parse_total) and its stack stays below (|tokens|+1)*B (C03.stack_bound_parse) - no assumption on the input. "
+              "model = code: constructor outcome and parse results compared on generated grammars (names permuted, hidden-"
+              "recursion shapes) with the real constructor and parse under a line-event budget; the pre-fix tree 59c8825~1 is "
+              "reported as a VIOLATION by oracle and correspondence.")
+LEVEL_NOTE = ("Trusted: Lean kernel (axioms propext, Classical.choice, Quot.sound), harness adapter/oracle, sampled "
+              "correspondence, sys.settrace budget as the observable of non-termination. Transfer of left recursion between the "
+              "user's and the factorised dictionary rests on the oracle.")
+TECHNIQUE = "Lean 4 theorems (DFS invariant with blackening order as rank; well-founded 4-tuple measure for the stack machine) + differential testing under a step budget"
